@@ -89,7 +89,7 @@ fn main() {
                 ev.families.push(e3::run_trie(id, e3::C09, &g, 15, &format!("Silver's complete placement trie after Gold's order {}", g)));
             }
             if !report::stopped() {
-                ev.families.push(e3::run_product(id, e3::C09, if thorough { 6 } else { 3 }));
+                ev.families.push(e3::run_product(id, e3::C09, if thorough { 5 } else { 4 }));
             }
             ev.nontrivial_rule = "states = distinct placement prefixes (trie nodes), transitions = real place() calls; non-trivial = complete 32-piece setups reached (leaves of a Silver trie), each checked for the start-of-play conditions".into();
             ev.nontrivial_keys = vec!["c09_complete_setups"];
